@@ -274,12 +274,18 @@ pub fn s_uval(out: &mut Vec<i128>, v: &UVal) {
 // ---------------------------------------------------------------------------------------------
 // the real encoders / decoders by type
 
+/// byte_len() and encode(); a panic of the encoder (e.g. its size assertion) is an Err like an encoding error,
+/// so that generators that use the real encoders survive a broken encoder
 fn enc_to<T: BinaryEncoder<T>>(v: &T, out: &mut Vec<u8>) -> Result<usize, ()> {
-    let bl = v.byte_len();
-    let mut c = Cursor::new(Vec::new());
-    v.encode(&mut c).map_err(|_| ())?;
-    out.extend(c.into_inner());
-    Ok(bl)
+    let r = guarded(|| {
+        let bl = v.byte_len();
+        let mut c = Cursor::new(Vec::new());
+        v.encode(&mut c).map(|_| (bl, c.into_inner())).map_err(|_| ())
+    });
+    match r {
+        Ok(Ok((bl, b))) => { out.extend(b); Ok(bl) }
+        _ => Err(()),
+    }
 }
 /// byte_len() and the encoded bytes of a scalar held in a Variant
 pub fn enc_scalar(v: &Variant, out: &mut Vec<u8>) -> Result<usize, ()> {
@@ -312,11 +318,10 @@ pub fn enc_uval(v: &UVal, out: &mut Vec<u8>) -> Result<usize, ()> {
 /// typed arrays go through the real write_array / byte_len_array
 macro_rules! arr_enc { ($xs:expr, $pat:path, $conv:expr, $out:expr) => {{
     let vals: Option<Vec<_>> = $xs.as_ref().map(|l| l.iter().map(|u| match u { UVal::S($pat(x)) => $conv(x), _ => unreachable!() }).collect());
-    let bl = byte_len_array(&vals);
-    let mut c = Cursor::new(Vec::new());
-    write_array(&mut c, &vals).map_err(|_| ())?;
-    $out.extend(c.into_inner());
-    Ok(bl)
+    match guarded(|| { let bl = byte_len_array(&vals); let mut c = Cursor::new(Vec::new()); write_array(&mut c, &vals).map(|_| (bl, c.into_inner())).map_err(|_| ()) }) {
+        Ok(Ok((bl, b))) => { $out.extend(b); Ok(bl) }
+        _ => Err(()),
+    }
 }}}
 pub fn enc_typed(t: &Ty, v: &UVal, out: &mut Vec<u8>) -> Result<usize, ()> {
     match (t, v) {
@@ -338,19 +343,17 @@ pub fn enc_typed(t: &Ty, v: &UVal, out: &mut Vec<u8>) -> Result<usize, ()> {
             Ty::S(25) => arr_enc!(xs, Variant::DiagnosticInfo, |x: &Box<DiagnosticInfo>| (**x).clone(), out),
             Ty::Var => {
                 let vals: Option<Vec<Variant>> = xs.as_ref().map(|l| l.iter().map(|u| match u { UVal::V(x) => x.clone(), _ => unreachable!() }).collect());
-                let bl = byte_len_array(&vals);
-                let mut c = Cursor::new(Vec::new());
-                write_array(&mut c, &vals).map_err(|_| ())?;
-                out.extend(c.into_inner());
-                Ok(bl)
+                match guarded(|| { let bl = byte_len_array(&vals); let mut c = Cursor::new(Vec::new()); write_array(&mut c, &vals).map(|_| (bl, c.into_inner())).map_err(|_| ()) }) {
+                    Ok(Ok((bl, b))) => { out.extend(b); Ok(bl) }
+                    _ => Err(()),
+                }
             }
             Ty::DV => {
                 let vals: Option<Vec<DataValue>> = xs.as_ref().map(|l| l.iter().map(|u| match u { UVal::D(x) => x.clone(), _ => unreachable!() }).collect());
-                let bl = byte_len_array(&vals);
-                let mut c = Cursor::new(Vec::new());
-                write_array(&mut c, &vals).map_err(|_| ())?;
-                out.extend(c.into_inner());
-                Ok(bl)
+                match guarded(|| { let bl = byte_len_array(&vals); let mut c = Cursor::new(Vec::new()); write_array(&mut c, &vals).map(|_| (bl, c.into_inner())).map_err(|_| ()) }) {
+                    Ok(Ok((bl, b))) => { out.extend(b); Ok(bl) }
+                    _ => Err(()),
+                }
             }
             _ => enc_uval(v, out),
         },
